@@ -76,8 +76,10 @@ class CStruct(object):
                 s = args[0]
             else:
                 s = b""
-            s += b"\x00" * self._size
-            s = s[:self._size]
+            # Do not pad @s in place: it may be the caller's own buffer
+            # (StrPatchwork implements +=)
+            s = bytes(s[:self._size])
+            s += b"\x00" * (self._size - len(s))
             self._unpack(s)
 
     def _unpack(self, s):
